@@ -3,6 +3,8 @@ CONSTANTS
   Producers = {1, 2, 3}
   NPush = 2
   NOps = 3
+  Readers = {}
+  NReads = 0
   Variant = "code"
 INVARIANTS NoRace AnnotOK MutexOK
 PROPERTY Refines
